@@ -422,5 +422,41 @@ def entry_point(chk, repo):
         chk.ob('R10.9', f'quick_tidal_dissipation ({lab}): returned tidal_heating == host_mass (n dUdM - spin dUdO) of the returned potential derivatives, with the spin rate the caller gave '
                '(on every outcome of tolerance tests made on the inputs)', ok,
                '' if ok else bad[0], where, key=f'R10.9|identity|{lab}', method='whole-function interpretation (paths through data-dependent predicates enumerated) + GF(p^2) PIT')
+    # (c) the limit values the property names, passed as exact numbers with array inputs: what the entry point returns there is what the generic result gives at that value
+    #     (special cases taken on exact zeros, modes dropped or buffers shared when a coefficient vanishes), and the circular, zero-obliquity, synchronous call returns zeros
+    from ..core.interp import PathExplorer
+    gen_kw = dict(spin_frequency=spin, obliquity=I_, max_tidal_order_l=3, eccentricity_truncation_lvl=4, use_obliquity=True)
+    it.array_mode = True
+
+    def run_paths(args):
+        def one(fork, args=args):
+            it.hooks['fork'] = fork
+            try:
+                return it.call(mq, f, [], dict(args))
+            finally:
+                it.hooks.pop('fork', None)
+        return PathExplorer(max_paths=16).run(one)
+    args = dict(base); args.update(gen_kw)
+    generic = run_paths(args)[0][1]
+    for lab, over, pins in (('e = 0', {'eccentricity': X.ZERO}, {'e': 0}), ('obliquity = 0', {'obliquity': X.ZERO}, {'I': 0}), ('e = 0 and obliquity = 0', {'eccentricity': X.ZERO, 'obliquity': X.ZERO}, {'e': 0, 'I': 0})):
+        dd = X.Decider(seed=chk.seed + 73, k=2, positive=[M + m], pins=pins)
+        args = dict(base); args.update(gen_kw); args.update(over)
+        bad = []
+        for trace, out in run_paths(args):
+            if any(PathExplorer.arm(v_, o_)[0] == 'equality' for (v_, _w, _t, o_) in trace):
+                continue
+            for q in ('tidal_heating', 'dUdM', 'dUdw', 'dUdO'):
+                if q not in out or not dd.equal(X.lift(out[q]), X.lift(generic[q])):
+                    bad.append(f'{q} differs from the generic result at that value' + PathExplorer.label(trace)); break
+        chk.ob('R10.9', f'quick_tidal_dissipation (Maxwell, free spin, l<=3, e^4, array inputs) with {lab} passed as a number: heating and the three potential derivatives == the generic result at that value',
+               not bad, '; '.join(bad[:2]), where, key=f'R10.9|limit|{lab}', method='array-mode interpretation + pinned GF(p^2) PIT')
+    args = dict(base); args.update(dict(spin_frequency=n, obliquity=X.ZERO, eccentricity=X.ZERO, max_tidal_order_l=3, eccentricity_truncation_lvl=4, use_obliquity=True))
+    bad = []
+    for trace, out in run_paths(args):
+        for q in ('tidal_heating', 'dUdM', 'dUdw', 'dUdO'):
+            if q not in out or not d.is_zero(X.lift(out[q])):
+                bad.append(f'{q} is not zero' + PathExplorer.label(trace))
+    chk.ob('R10.9', 'quick_tidal_dissipation with spin = n, e = 0, obliquity = 0 passed exactly (array inputs): heating and the three potential derivatives vanish', not bad, '; '.join(bad[:2]), where,
+           key='R10.9|limit|synchronous circular', method='array-mode interpretation + GF(p^2) PIT')
     it.array_mode = False
-    chk.floor('R10.9', 6)
+    chk.floor('R10.9', 10)
